@@ -5,17 +5,25 @@ import math
 import numpy as np
 
 from .. import fake_engine as fe
-from ..common import w, wl, rd, rdl, close, fr
+from ..common import w, wl, rd, rdl, rdll, close, fr
+from ..common import wll as cm_wll
 
 RULE = ("the real standard Engine.price driven by a scripted process with prescribed dyadic terminal values: 2..200 paths, scalar and "
         "vector strikes (payoff dimension 1..3), call/put/forward payoffs, notionals, discount factors, 0..3 control variates "
-        "(forwards/calls, with exact or perturbed prices), spot statistics on/off. non-trivial = at least 3 paths with non-constant "
-        "payoff; distinct = distinct (paths, product, controls)")
-NOT_PROVED = ["k >= 2 controls: the variance inequality is proved for coefficients solving the normal equations "
-              "(cv_var_le_raw_normal_equations); that numpy.linalg.pinv returns such coefficients is oracle-checked (residual), not proved",
-              "np.cov / np.linalg.inv kernels are compared with the model's exact rational formulas, not proved"]
-ASSUMPTIONS = ["standard errors are compared as squares"]
-TRUSTED = ["numpy mean/std/cov/linalg.inv"]
+        "(forwards/calls with their own notionals; scalar-valued controls broadcast to all components or vector-valued controls with one "
+        "strike per component; scalar or per-component prices, exact or perturbed), spot statistics on/off; directed: constant control, "
+        "constant payoff, two paths, collinear controls (singular covariance matrix: pseudo-inverse path) for scalar and vector payoffs, "
+        "vector identity. non-trivial = at least 3 paths with non-constant payoff; distinct = distinct (paths, product, controls)")
+NOT_PROVED = ["k >= 3 controls: the variance inequality is proved for coefficients solving the normal equations "
+              "(cv_var_le_raw_normal_equations); that numpy.linalg.pinv returns such coefficients is oracle-checked (residual), not proved. "
+              "For k <= 2 the kernel as coded (guard on every entry of Sigma_X, inverse, pseudo-inverse when singular) is modelled exactly and "
+              "proved to solve the normal equations in every branch (kernel2_normal_equations, cv_var_le_raw_vec)",
+              "np.cov / np.linalg.pinv kernels are compared with the model's exact rational formulas, not proved"]
+ASSUMPTIONS = ["standard errors are compared as squares",
+               "two controls: inputs whose covariance matrix is nearly but not exactly singular (cond > 1e10 with non-zero exact determinant) or "
+               "has an entry within a factor 10 of the 1e-12 guard are don't-care points of the float pseudo-inverse / guard (excluded, counted); "
+               "tolerance 2^-40 relative to a scale that grows with cond(Sigma_X)/1e3 in the regular branch"]
+TRUSTED = ["numpy mean/std/cov/linalg.pinv"]
 
 
 def make_product(rng, kind, strikes, notional):
@@ -36,23 +44,82 @@ def payoff_value(kind, strike, s):
     return max(s - strike, 0.0) if kind == "call" else max(strike - s, 0.0)
 
 
-def one_case(ctx, vals, kind, strikes, notional, df, controls, spot_stats, tag):
+def _comp(v, c):
+    """component c of a scalar-or-list specification"""
+    return v[c] if isinstance(v, (list, tuple)) else v
+
+
+def new_engine():
+    """one standard Engine object on a scripted process, to be priced several times in a row (`engine reuse` histories)"""
+    from rpylib.montecarlo.configuration import ConfigurationStandard
+    from rpylib.montecarlo.standard.engine import Engine
+    return Engine(configuration=ConfigurationStandard(mc_paths=1, nb_of_processes=1), process=fe.FakeProcess([], df=1.0, log=[]))
+
+
+def price_on(engine, vals, product, df, cps, cprices, spot_stats):
+    """price once more on an EXISTING engine object after re-configuring it through its public configuration attributes"""
+    from rpylib.product.product import ControlVariates, NoControlVariates
+    cfg = engine.configuration
+    cfg.mc_paths = len(vals)
+    cfg.control_variates = ControlVariates(products=cps, prices=cprices) if cps else NoControlVariates()
+    cfg.activate_spot_statistics = spot_stats
+    proc = engine.process
+    proc.terminal_values, proc.count, proc._df = list(vals), 0, df
+    del proc.log[:]
+    stats = engine.price(product)
+    return dict(stats=stats, log=proc.log, engine=engine)
+
+
+def _build(kind, strikes, notional, controls):
+    from rpylib.product.payoff import Forward, Vanilla, PayoffType
+    from rpylib.product.product import Product
+    from rpylib.product.underlying import Spot
+    product = make_product(None, kind, strikes, notional)
+    cps, cprices = [], []
+    for ck, cstrike, cprice, cnot in [tuple(c) + (1.0,) * (4 - len(c)) for c in controls]:
+        kk = np.array(cstrike) if isinstance(cstrike, (list, tuple)) else cstrike
+        cps.append(Product(payoff_underlying=Spot(), payoff=Forward(strike=kk) if ck == "forward" else
+                           Vanilla(strike=kk, payoff_type=PayoffType.CALL), maturity=fe.T, notional=cnot))
+        cprices.append(np.array(cprice) if isinstance(cprice, (list, tuple)) else cprice)
+    return product, cps, cprices
+
+
+def reuse_history(ctx, cases, tag):
+    """ONE engine object priced for every case of `cases` in a row (paths going down / equal / up, payoff dimension and controls
+    changing between the runs): every run is judged exactly like a fresh run — rows = exactly the paths of THIS run, N = the configured
+    number of paths, textbook price / error / control-variate adjustment, and the Lean model of a fresh run on its own paths."""
+    eng = new_engine()
+    done = []
+    for i, case in enumerate(cases):
+        vals, kind, strikes, notional, df, controls, spot = case
+        one_case(ctx, vals, kind, strikes, notional, df, controls, spot, f"{tag}:run{i}", engine=eng, prefix=list(done))
+        done.append([vals, kind, strikes, notional, df, [list(c) for c in controls], spot])
+
+
+def one_case(ctx, vals, kind, strikes, notional, df, controls, spot_stats, tag, engine=None, prefix=None):
     from rpylib.product.payoff import Forward, Vanilla, PayoffType
     from rpylib.product.product import Product
     from rpylib.product.underlying import Spot
     n = len(vals)
     desc = dict(values=vals, kind=kind, strikes=strikes, notional=notional, df=df, controls=controls, spot_stats=spot_stats)
     cls = dict(kind=tag, dim=len(strikes), ncontrols=len(controls))
+    if engine is not None:
+        desc["reuse_prefix"] = prefix or []           # the runs priced before on the same engine object (needed to replay)
+        cls["engine_reused"] = bool(prefix)
     product = make_product(None, kind, strikes, notional)
     cps, cprices = [], []
     controls = [tuple(c) + (1.0,) * (4 - len(c)) for c in controls]        # (kind, strike, price, notional)
     for ck, cstrike, cprice, cnot in controls:
-        cps.append(Product(payoff_underlying=Spot(), payoff=Forward(strike=cstrike) if ck == "forward" else
-                           Vanilla(strike=cstrike, payoff_type=PayoffType.CALL), maturity=fe.T, notional=cnot))
-        cprices.append(cprice)
+        kk = np.array(cstrike) if isinstance(cstrike, (list, tuple)) else cstrike
+        cps.append(Product(payoff_underlying=Spot(), payoff=Forward(strike=kk) if ck == "forward" else
+                           Vanilla(strike=kk, payoff_type=PayoffType.CALL), maturity=fe.T, notional=cnot))
+        cprices.append(np.array(cprice) if isinstance(cprice, (list, tuple)) else cprice)
     try:
         with np.errstate(all="ignore"):
-            r = fe.run_standard(vals, product, df=df, controls=cps or None, control_prices=cprices or None, spot_stats=spot_stats)
+            if engine is not None:
+                r = price_on(engine, vals, product, df, cps, cprices, spot_stats)
+            else:
+                r = fe.run_standard(vals, product, df=df, controls=cps or None, control_prices=cprices or None, spot_stats=spot_stats)
     except Exception as e:
         ctx.fail("oracle", "c07.engine_raises", desc, {"what": f"{type(e).__name__}: {e}"}, cls=cls)
         return
@@ -60,7 +127,7 @@ def one_case(ctx, vals, kind, strikes, notional, df, controls, spot_stats, tag):
     d = len(strikes)
     ys = [[df * notional * payoff_value(kind, k, s) for s in vals] for k in strikes]      # textbook, per component
     nontrivial = n >= 3 and any(len(set(y)) > 1 for y in ys)
-    ctx.count("c07.case", desc, nontrivial=nontrivial, branch=f"{tag}:d{d}:cv{len(controls)}")
+    ctx.count("c07.case", desc, nontrivial=nontrivial, branch=(f"{tag}:d{d}:cv{len(controls)}" if engine is None else "engine_reuse"))
     raw_price = np.atleast_1d(st.price(no_control_variates=True)).astype(float)
     raw_err = np.atleast_1d(st.mc_stddev(no_control_variates=True)).astype(float)
     rows = np.array(st._payoff_statistics.stats, dtype=float)
@@ -99,65 +166,96 @@ def one_case(ctx, vals, kind, strikes, notional, df, controls, spot_stats, tag):
     adj_price = np.atleast_1d(st.price()).astype(float)
     adj_err = np.atleast_1d(st.mc_stddev()).astype(float)
     adj_rows = np.array(st._payoff_statistics_with_cv.stats, dtype=float)
-    xs = [[df * cn * payoff_value(ck, cs, s) for s in vals] for ck, cs, _, cn in controls]
-    if adj_rows.shape != rows.shape:
-        ctx.fail("oracle", "c07.cv_shape", desc, {"adjusted": adj_rows.shape, "raw": rows.shape}, cls=cls)
+    k = len(controls)
+    # control values per (control j, component c): a scalar-strike control is broadcast to every component
+    xs = [[[df * cn * payoff_value(ck, _comp(cs, c), s) for s in vals] for c in range(d)] for ck, cs, _, cn in controls]
+    prices = [[float(_comp(cp, c)) for c in range(d)] for _, _, cp, _ in controls]
+    X_impl = np.array(st._control_variates_statistics.stats, dtype=float)
+    if adj_rows.shape != rows.shape or X_impl.shape != (n, k, d):
+        ctx.fail("oracle", "c07.cv_shape", desc, {"adjusted": adj_rows.shape, "raw": rows.shape, "controls": X_impl.shape}, cls=cls)
         return
+    if any([float(v) for v in X_impl[:, j, c]] != xs[j][c] for j in range(k) for c in range(d)):
+        ctx.fail("oracle", "c07.cv_rows", desc, {"what": "control row i is not df*notional*payoff of control j on path i (per component)"}, cls=cls)
+        return
+    conds, exact_singular = [], []
     for j in range(d):
         y = np.array(ys[j])
-        X = np.array(xs)                                     # (k, n)
-        prices = np.array([c[2] for c in controls])
-        means_match = all(abs(np.mean(X[i]) - prices[i]) <= 1e-15 * max(1.0, abs(prices[i])) for i in range(len(controls)))
+        X = np.array([xs[i][j] for i in range(k)])                     # (k, n): the controls of THIS component
+        pr = np.array([prices[i][j] for i in range(k)])
+        means_match = all(abs(np.mean(X[i]) - pr[i]) <= 1e-15 * max(1.0, abs(pr[i])) for i in range(k))
         tol = 1e-9 * (abs(raw_price[j]) + float(np.max(np.abs(y))) + 1.0)
         if means_match and abs(adj_price[j] - raw_price[j]) > tol:
             ctx.fail("oracle", "c07.cv_mean_identity", desc, {"component": j, "adjusted": adj_price[j], "raw": raw_price[j]}, cls=cls)
             return
-        # the adjusted price is the mean of Y - b*(X - price_X) for some b: recover b by least squares on the stored rows
-        if n > len(controls) + 1 and float(adj_err[j]) > float(raw_err[j]) * (1 + 1e-9) + 1e-13:
-            sx = np.atleast_2d(np.cov(X, bias=True))
-            with np.errstate(all="ignore"):
-                cond = float(np.linalg.cond(sx)) if np.all(np.isfinite(sx)) else float("inf")
+        if means_match:
+            ctx.branches["c07.cv:identity_premise_holds"] += 1
+        sx = np.atleast_2d(np.cov(X, bias=True))
+        with np.errstate(all="ignore"):
+            cond = float(np.linalg.cond(sx)) if np.all(np.isfinite(sx)) else float("inf")
+        conds.append(cond)
+        if n > k + 1 and float(adj_err[j]) > float(raw_err[j]) * (1 + 1e-9) + 1e-13:
             ctx.fail("oracle", "c07.cv_variance", desc, {"component": j, "adjusted_err": float(adj_err[j]), "raw_err": float(raw_err[j]),
                                                           "cond_sigma_x": cond},
-                     cls=dict(cls, singular_sigma_x=bool(cond > 1e12 and len(controls) >= 2)))   # (class kept for the record: fixed in /repo)
+                     cls=dict(cls, singular_sigma_x=bool(cond > 1e12 and k >= 2)))   # (class kept for the record: fixed in /repo)
             return
-        if len(controls) >= 2 and n > len(controls) + 1:
+        if k >= 2 and n > k + 1:
             # k controls: theorem cv_var_le_raw_normal_equations needs coefficients solving the normal equations; the pseudo-inverse
-            # of the sample covariance matrix provides them: check the residual and that the stored rows use exactly those coefficients
+            # of the sample covariance matrix provides them: check the residual and that the stored rows use exactly those
+            # coefficients — one coefficient vector per payoff component, from the component's own columns
             cov = np.cov(X, y, bias=True)
-            sx, sxy = cov[:-1, :-1], cov[:-1, -1]
-            if float(np.amin(np.abs(sx))) >= 1e-12:
-                b_ref = np.linalg.pinv(sx, hermitian=True) @ sxy
+            sxx, sxy = cov[:-1, :-1], cov[:-1, -1]
+            if float(np.amin(np.abs(sxx))) >= 1e-12:
+                b_ref = np.linalg.pinv(sxx, hermitian=True) @ sxy
                 scale_b = float(np.max(np.abs(sxy))) + 1e-300
-                if float(np.max(np.abs(sx @ b_ref - sxy))) > 1e-8 * scale_b:
+                if float(np.max(np.abs(sxx @ b_ref - sxy))) > 1e-8 * scale_b:
                     ctx.fail("oracle", "c07.cv_normal_equations", desc, {"what": "the regression coefficients do not solve the normal equations",
-                                                                        "residual": (sx @ b_ref - sxy).tolist()}, cls=cls)
+                                                                        "component": j, "residual": (sxx @ b_ref - sxy).tolist()}, cls=cls)
                     return
-                exp_adj = y - (X.T - prices) @ b_ref
-                sc = float(np.max(np.abs(y))) + float(np.sum(np.abs(b_ref)) * np.max(np.abs(X.T - prices))) + 1e-300
+                exp_adj = y - (X.T - pr) @ b_ref
+                sc = float(np.max(np.abs(y))) + float(np.sum(np.abs(b_ref)) * np.max(np.abs(X.T - pr))) + 1e-300
                 if float(np.max(np.abs(adj_rows[:, j] - exp_adj))) > 1e-7 * sc:
-                    ctx.fail("oracle", "c07.cv_rows", desc, {"what": "adjusted rows are not Y - b*(X - price_X) with the least-squares coefficients",
-                                                            "component": j, "adjusted": adj_rows[:4, j].tolist(), "expected": exp_adj[:4].tolist()}, cls=cls)
+                    ctx.fail("oracle", "c07.cv_rows", desc, {"what": "adjusted rows are not Y - b*(X - price_X) with the least-squares coefficients "
+                                                                      "of the component", "component": j, "adjusted": adj_rows[:4, j].tolist(),
+                                                            "expected": exp_adj[:4].tolist()}, cls=cls)
                     return
-        if len(controls) == 1:
-            out = ctx.lean(f"cv1 {w(controls[0][2])} {wl(xs[0])} {wl(ys[j])}").split(" ")
-            b, adj, madj, eadj = rd(out[0]), rdl(out[1]), rd(out[2]), rd(out[3])
-            varx = float(np.var(X[0]))
-            if abs(varx - 1e-12) < 1e-13:                  # guard boundary: don't care
+                if cond > 1e12:
+                    ctx.branches["c07.cv:pinv_singular_sigma_x"] += 1
+    if k > 2:
+        return
+    # ---- C: the model's adjusted array (Stats.adjustVec with the kernel as coded), all components at once
+    from fractions import Fraction as F
+    for j in range(d):
+        X = [[F(v) for v in xs[i][j]] for i in range(k)]
+        m = [sum(r) / n for r in X]
+        cv_ = lambda a, b, ma, mb: sum((p - ma) * (q - mb) for p, q in zip(a, b)) / n
+        ent = [cv_(X[a], X[b], m[a], m[b]) for a in range(k) for b in range(k)]
+        if any(F(1, 10 ** 13) < abs(e) < F(1, 10 ** 11) for e in ent):      # guard boundary: don't care
+            ctx.excluded_small_margin += 1
+            return
+        if k == 2:
+            det0 = ent[0] * ent[3] - ent[1] * ent[2] == 0
+            exact_singular.append(det0)
+            if not det0 and conds[j] > 1e10:                                 # nearly singular: float pinv cut-off is a don't-care
                 ctx.excluded_small_margin += 1
-                continue
-            sc = (max(abs(v) for v in ys[j]) or 1.0) + abs(float(b)) * (max(abs(v - controls[0][2]) for v in xs[0]) or 1.0)
-            ok = all(close(p, q, scale=sc) for p, q in zip(adj_rows[:, j], adj)) and close(adj_price[j], madj, scale=sc) \
-                and (n < 2 or close(float(adj_err[j]) ** 2, eadj, scale=sc * sc))
-            if not ok:
-                ctx.fail("corr", "c07.cv1.model", desc, {"name": "Drivers/C07 cv1 vs compute_coefficients", "component": j,
-                                                          "impl": [adj_rows[:4, j].tolist(), adj_price[j], float(adj_err[j]) ** 2],
-                                                          "model": [str(b), float(madj), float(eadj)]}, cls=cls)
                 return
+    out = ctx.lean("cvvec %d %d %s %s %s" % (k, d, cm_wll(prices), cm_wll([xs[i][c] for i in range(k) for c in range(d)]), cm_wll(ys))).split(" ")
+    adj_m, b_m, mean_m, err_m = rdll(out[0]), rdll(out[1]), rdl(out[2]), rdl(out[3])
+    for j in range(d):
+        amp = 1.0 if (k == 1 or (exact_singular and exact_singular[j])) else max(1.0, conds[j] / 1e3)
+        sc = ((max(abs(v) for v in ys[j]) or 1.0) + sum(abs(float(b_m[j][i])) * (max(abs(v - prices[i][j]) for v in xs[i][j]) or 1.0)
+                                                         for i in range(k))) * amp * max(1, n)
+        ok = len(adj_m[j]) == n and all(close(p_, q_, scale=sc) for p_, q_ in zip(adj_rows[:, j], adj_m[j])) \
+            and close(adj_price[j], mean_m[j], scale=sc) and (n < 2 or close(float(adj_err[j]) ** 2, err_m[j], scale=sc * sc))
+        if not ok:
+            ctx.fail("corr", "c07.cvvec.model", desc, {"name": "Drivers/C07 cvvec (Stats.adjustVec, kernel as coded) vs compute_coefficients",
+                                                        "component": j, "impl": [adj_rows[:4, j].tolist(), adj_price[j], float(adj_err[j]) ** 2],
+                                                        "model": [[float(v) for v in adj_m[j][:4]], float(mean_m[j]), float(err_m[j]), [float(b) for b in b_m[j]]]}, cls=cls)
+            return
+        ctx.branches[f"c07.cvvec:k{k}:d{d}" + (":singular" if exact_singular and exact_singular[j] else "")] += 1
 
 
-def gen_case(rng):
-    n = rng.choice([2, 3, 4, 5, 8, 16, 50, 200])
+def gen_case(rng, n=None):
+    n = n or rng.choice([2, 3, 4, 5, 8, 16, 50, 200])
     base = rng.choice([1.0, 4.0, 100.0])
     vals = [base * (1 + rng.randint(-64, 64) / 128) for _ in range(n)]
     kind = rng.choice(["call", "put", "forward", "call"])
@@ -167,13 +265,20 @@ def gen_case(rng):
     df = rng.choice([1.0, 0.5, 0.75])
     nc = rng.choice([0, 0, 1, 1, 2, 3])
     controls = []
+    # shapes: scalar-valued controls are broadcast to every payoff component; vector-valued controls (strikes of length d) give every
+    # component its own control column; prices are all scalars or all vectors of length d (the code looks at prices[0] only)
+    vec_controls = d > 1 and rng.random() < 0.4
+    vec_prices = d > 1 and rng.random() < 0.4
+    centred = rng.random() < 0.5
     for _ in range(nc):
-        ck = rng.choice(["forward", "call"])
-        cs = base * rng.choice([0.5, 0.875, 1.0])
+        ck = "call" if vec_controls else rng.choice(["forward", "call"])
+        cs = [base * rng.choice([0.5, 0.875, 1.0, 0.625]) for _ in range(d)] if vec_controls else base * rng.choice([0.5, 0.875, 1.0])
         cn = rng.choice([1.0, 1.0, 2.5, 0.5, 10.0])             # the control products carry their own notional
-        xs = [df * cn * payoff_value(ck, cs, s) for s in vals]
-        exact = float(np.mean(xs))
-        cprice = exact if rng.random() < 0.5 else exact + rng.choice([-0.25, 0.125, 0.5])
+        exact = [float(np.mean([df * cn * payoff_value(ck, _comp(cs, c), s) for s in vals])) for c in range(d)]
+        if vec_prices:
+            cprice = [e if centred else e + rng.choice([-0.25, 0.125, 0.5]) for e in exact]
+        else:
+            cprice = exact[0] if centred else exact[0] + rng.choice([-0.25, 0.125, 0.5])
         controls.append((ck, cs, cprice, cn))
     return vals, kind, strikes, notional, df, controls, rng.random() < 0.3
 
@@ -183,14 +288,62 @@ def run(ctx):
     for _ in range(ctx.n(250, 4000)):
         vals, kind, strikes, notional, df, controls, spot = gen_case(rng)
         one_case(ctx, vals, kind, strikes, notional, df, controls, spot, "random")
+    # engine reuse: one Engine object priced 2-3 times in a row, paths going down / equal / up, payoff dimension same / different,
+    # controls switched on / off / changed between the runs
+    for _ in range(ctx.n(25, 300)):
+        n0 = rng.choice([5, 8, 16, 50])
+        sizes = [n0, rng.choice([2, 3, n0 // 2 + 1, n0, n0, n0 + 3, 2 * n0])] + ([rng.choice([3, n0, n0 + 5])] if rng.random() < 0.5 else [])
+        cases, keep = [], None
+        for m in sizes:
+            vals, kind, strikes, notional, df, controls, spot = gen_case(rng, n=m)
+            if keep is not None and rng.random() < 0.6:       # same product shape as the previous run (same payoff dimension), new paths
+                kind, strikes, notional = keep
+                if rng.random() < 0.5:
+                    controls = [c for c in controls if not isinstance(c[1], list) and not isinstance(c[2], list)][:2] if len(strikes) == 1 else []
+                else:
+                    controls = []
+            if len(strikes) == 1:
+                controls = [c for c in controls if not isinstance(c[1], list) and not isinstance(c[2], list)]
+            keep = (kind, strikes, notional)
+            cases.append((vals, kind, strikes, notional, df, controls, spot))
+        reuse_history(ctx, cases, "reuse")
+    # directed reuse: 8 paths then 5 on the same engine (stale rows 5..7 must not be counted), with and without a control, vector strikes
+    for strikes, ctl in (([2.0], []), ([1.5, 2.5], []), ([2.0], [("forward", 1.0, 0.25, 2.0)]), ([1.5, 2.5], [("forward", 1.0, 0.25, 2.0)])):
+        a = [1.0, 2.0, 4.0, 3.0, 0.5, 2.5, 3.5, 1.5]
+        b = [2.25, 3.0, 0.75, 4.5, 1.25]
+        reuse_history(ctx, [(a, "call", strikes, 2.0, 0.5, ctl, False), (b, "call", strikes, 2.0, 0.5, ctl, True), (a + b, "call", strikes, 2.0, 0.5, ctl, False)],
+                      "reuse_directed")
     # directed: constant control (fallback b* = 0), constant payoff, two paths
     one_case(ctx, [1.0, 2.0, 3.0, 4.0], "call", [0.0], 1.0, 1.0, [("call", 10.0, 0.0, 1.0)], False, "constant_control")
     one_case(ctx, [5.0, 5.0, 5.0], "call", [1.0], 1.0, 0.5, [("forward", 1.0, 2.0, 1.0)], False, "constant_payoff")
     one_case(ctx, [1.0, 2.0, 4.0, 3.0], "call", [2.0], 3.0, 0.5, [("forward", 1.5, 0.5 * 2.5 * 1.0, 2.5)], False, "control_notional")
     one_case(ctx, [1.0, 3.0], "put", [2.0, 4.0], 2.0, 0.5, [], True, "two_paths_vector")
+    # directed: two collinear controls (same payoff, different notionals): Sigma_X is singular, the pseudo-inverse path is taken;
+    # b must still solve the normal equations and the adjusted variance must not exceed the raw one (scalar and vector payoff)
+    for vals in ([1.0, 2.0, 4.0, 3.0, 0.5, 2.5], [3.0625, 2.6875, 2.375, 4.6875, 2.25], [float(i % 7) + 0.25 * (i % 3) for i in range(40)]):
+        one_case(ctx, vals, "call", [2.0], 1.0, 0.5, [("forward", 1.0, 0.25, 1.0), ("forward", 1.0, 0.75, 2.0)], False, "collinear")
+        one_case(ctx, vals, "call", [1.5, 2.5], 2.0, 1.0, [("call", 2.0, 0.5, 1.0), ("call", 2.0, 0.125, 0.5)], False, "collinear")
+        one_case(ctx, vals, "put", [2.0, 3.0, 1.0], 1.0, 0.5, [("call", [1.0, 2.0, 3.0], [0.5, 0.25, 0.125], 1.0), ("call", [1.0, 2.0, 3.0], [0.375, 0.0, 1.0], 4.0)], False, "collinear_vector")
+    # directed: vector payoff, vector-valued controls, vector prices equal to the controls' sample means: identity per component
+    vals = [1.0, 2.0, 4.0, 3.0, 0.5, 2.5, 3.5, 1.5]
+    ks = [1.0, 2.0, 3.0]
+    pr1 = [float(np.mean([0.5 * payoff_value("call", kk, v) for v in vals])) for kk in ks]
+    pr2 = [float(np.mean([0.5 * 2.0 * payoff_value("call", kk + 0.5, v) for v in vals])) for kk in ks]
+    one_case(ctx, vals, "put", [2.0, 3.0, 2.5], 1.0, 0.5, [("call", ks, pr1, 1.0), ("call", [kk + 0.5 for kk in ks], pr2, 2.0)], False, "vector_identity")
 
 
 def replay(ctx, rec):
     d = rec["input"]
+    if "reuse_prefix" in d:
+        eng = new_engine()
+        for vals, kind, strikes, notional, df, controls, spot in d["reuse_prefix"]:
+            product, cps, cprices = _build(kind, strikes, notional, [tuple(c) for c in controls])
+            try:
+                price_on(eng, vals, product, df, cps, cprices, spot)
+            except Exception:
+                pass
+        one_case(ctx, d["values"], d["kind"], d["strikes"], d["notional"], d["df"], [tuple(c) for c in d["controls"]], d["spot_stats"],
+                 rec.get("cls", {}).get("kind", "replay"), engine=eng, prefix=d["reuse_prefix"])
+        return
     one_case(ctx, d["values"], d["kind"], d["strikes"], d["notional"], d["df"], [tuple(c) for c in d["controls"]], d["spot_stats"],
              rec.get("cls", {}).get("kind", "replay"))
